@@ -143,8 +143,8 @@ theorem afirstT {g : E2E.Cfg} {rd : ARead} (ok : AOK g rd false) {X lost : Bytes
     have : e1 ++ c.env.tr.input = X := hwire
     rw [this]; exact hcut
   have hr20 := r2_auth_start ok (input := c.env.tr.input ++ lost) hlen hwire'
-  obtain ⟨f, hf⟩ : ∃ f, handlerFuel c.env (AReq.new (Str.Parser.fromParser g.cap g.p.request e1 g.mc)) = f + 1 :=
-    ⟨handlerFuel c.env (AReq.new (Str.Parser.fromParser g.cap g.p.request e1 g.mc)) - 1, by
+  obtain ⟨f, hf⟩ : ∃ f, (handlerFuel c.env (AReq.new (Str.Parser.fromParser g.cap g.p.request e1 g.mc)) + scriptOf c) = f + 1 :=
+    ⟨(handlerFuel c.env (AReq.new (Str.Parser.fromParser g.cap g.p.request e1 g.mc)) + scriptOf c) - 1, by
       have := handlerFuel_ge c.env (AReq.new (Str.Parser.fromParser g.cap g.p.request e1 g.mc)); omega⟩
   obtain ⟨r', e2, o, heqX, hts0, hin2, hwl2, hsg2, hm2, hevs, hr2, hout, hlk, hwr, hrq, hmc⟩ :=
     areadsT ok.ctx rd (r0 := AReq.new (Str.Parser.fromParser g.cap g.p.request e1 g.mc)) (e := c.env) (G := e1)
